@@ -120,6 +120,10 @@ out.append("""* `C01` (swap refunds surplus coins it had priced on): the swap ge
 * Three round-6 changes (`C01f`, `C02f`, `C03f`) independently made asset equality ignore the asset kind, and `C04f` relied on a holder burning LP directly at the token contract - shapes that were only in the generators because earlier rounds had put them there (denoms spelled like token addresses after `C17c`/`C12c`; the direct LP burn was added minutes before `C04f` arrived).
 * own mutants of C13 / C14, see D.1.
 
+**Second seed.** After round 8 the whole catalogue was run once more with `VERIF_SEED=1`, each change against the check of its own property only (`mutants/results-seeded-seed1.txt`): 155 of 156 reported (all but `C14h`), median 19 s and at most 66 s per run including the incremental rebuild - so the detections above do not hinge on the default seed, and the widenings made for later rounds did not dilute the detection of earlier changes.
+
+**Second driver.** Ten seeded changes of ten different properties were also run with the proptest stage switched off (`HV_ONLY_FUZZ=1`, thorough tier, `mutants/results-fuzz-only.txt`): the coverage-guided libFuzzer stage alone, started from the replay-tier tapes plus four random tapes, reported all ten (`C02c`, `C04b`, `C11b`, `C13b`, `C08b`, `C18b`, `C06`, `C15c`, `C20`, `C16c`) in 76-146 s each.
+
 What the seeded changes taught about this technique here: the oracles were never the weak point (every miss was a *generator* blind spot: an input shape, an entry path, an operation kind or an identifier alphabet that was not produced), which is why later rounds - asked to differ from the earlier ones, and in round 4 steered to untouched code locations - kept being valuable: the miss rate was 2/20, 4/20 (one of them infrastructure), 2/20, 3/20, 1/20, 5/18, 5/18 and 3/20 in rounds 1 to 8 (the cross-contract and the state/sequence rounds were the most productive ones since round 2), and two of the three round-4 misses were still reported by the check of a *neighbouring* property (C13 for `C02d`, C17 for `C16d`).
 """)
 text = "\n".join(out)
